@@ -4,6 +4,7 @@ import (
 	"encoding/json"
 	"errors"
 	"fmt"
+	"math"
 	"sort"
 	"strings"
 	"time"
@@ -52,6 +53,8 @@ var c20Values = map[string]interface{}{
 	"namedfloat":        c20Float(1),
 	"error":             c20Err,
 	"[]struct":          []c20Struct{{1}},
+	"NaN":               math.NaN(),
+	"+Inf":              math.Inf(1),
 }
 
 func c20Names() []string {
@@ -79,7 +82,12 @@ func c20Encode(v interface{}) string {
 			parts = append(parts, c20Encode(x))
 		}
 		return "[" + strings.Join(parts, ",") + "]"
-	case nil, float64, string, bool:
+	case float64:
+		if !math.IsNaN(t) && !math.IsInf(t, 0) {
+			b, _ := json.Marshal(t)
+			return string(b)
+		}
+	case nil, string, bool:
 		b, _ := json.Marshal(t)
 		return string(b)
 	}
